@@ -8,7 +8,7 @@ import LlgoVerif.Spec.DeferSem
     `frame <stmts> <hist>`                        frame layer only: calls made by `Model.unwindView` and by `Spec.unwindView`
                                                   (`hist` = statement indices, comma separated, oldest first; payload = position)
 
-    prog  := fn ('|' fn)*            fn := capR [entryFrame] ';' stmts ';' events
+    prog  := fn ('|' fn)*            fn := capR [entryFrame [implicitRun]] ';' stmts ';' events
     stmts := '' | stmt (',' stmt)*   stmt := kind '.' clo '.' nargs '.' fn        kind ∈ a c l x
     events:= '' | ev (',' ev)*       ev := d.k(.arg)* | c.g(.arg)* | m.int | p.arg | f | R | t | e | s.up.var.arg | a.up.var.arg | w.up.var
     arg   := l<int> | x | r | p<nat>
@@ -62,8 +62,9 @@ def parseFn (s : String) : Option Fn :=
   match s.splitOn ";" with
   | [c, ss, evs] =>
     match c.toList with
-    | [a] => do pure ⟨← parseList parseStmt ss, ← parseList parseEv evs, ← parseBool (String.singleton a), false⟩
-    | [a, b] => do pure ⟨← parseList parseStmt ss, ← parseList parseEv evs, ← parseBool (String.singleton a), ← parseBool (String.singleton b)⟩
+    | [a] => do pure ⟨← parseList parseStmt ss, ← parseList parseEv evs, ← parseBool (String.singleton a), false, false⟩
+    | [a, b] => do pure ⟨← parseList parseStmt ss, ← parseList parseEv evs, ← parseBool (String.singleton a), ← parseBool (String.singleton b), false⟩
+    | [a, b, c] => do pure ⟨← parseList parseStmt ss, ← parseList parseEv evs, ← parseBool (String.singleton a), ← parseBool (String.singleton b), ← parseBool (String.singleton c)⟩
     | _ => none
   | _ => none
 
@@ -87,6 +88,7 @@ def showFlag : Flag → String
   | .drainOrder => "drainOrder"
   | .staleFrame => "staleFrame"
   | .regResult => "regResult"
+  | .resultBeforeRun => "resultBeforeRun"
   | .recoverIndirect => "recoverIndirect"
   | .nestedRecover => "nestedRecover"
 
